@@ -148,8 +148,17 @@ def prepare(lib, case, ck=None, ctrl=True, forces=True):
     if ck:
       ck.discard('illconditioned-M')
     return None
+  newton = int(m.opt.solver) == E.mjSOL_NEWTON
   for _ in range(case.nsettle):
-    lib.mj_step(m, d)
+    dprev = lib.copy_data(m, d) if newton else None
+    try:
+      lib.mj_step(m, d)
+    except mj.MjError as e:
+      if newton and 'rank-deficient' in str(e) and illconditioned_hessian(lib, m, dprev):
+        if ck:
+          ck.discard('illconditioned-hessian(settle)')
+        return None
+      raise
   w = lib.warnings()
   bad = (not np.all(np.isfinite(d.qpos))) or (not np.all(np.isfinite(d.qvel))) or np.max(np.abs(d.qvel), initial=0) > 1e3
   if bad or w:
@@ -157,6 +166,27 @@ def prepare(lib, case, ck=None, ctrl=True, forces=True):
       ck.discard('unstable-settle')
     return None
   return m, d
+
+
+def illconditioned_hessian(lib, m, d0, limit=1e8):
+  """True if the constrained problem at the state of d0 has a stiffness/inertia ratio (largest eigenvalue of
+  M^-1/2 J'DJ M^-1/2) above `limit`; measured with a dense CG forward pass (no Hessian factorisation).  Used to classify
+  'rank-deficient Hessian' errors of the Newton solver: legitimate only for numerically singular problems (e.g. R ~ 1e-15
+  rows of contacts that cannot move their body), label + skip per HARNESS rule 2."""
+  from .oracle import cons
+  E = lib.enums
+  keep = (int(m.opt.solver), int(m.opt.jacobian), int(m.opt.iterations), int(m.opt.noslip_iterations))
+  m.opt.solver, m.opt.jacobian, m.opt.iterations, m.opt.noslip_iterations = E.mjSOL_CG, E.mjJAC_DENSE, 1, 0
+  try:
+    d = lib.copy_data(m, d0)
+    lib.mj_forward(m, d)
+    if int(d.nefc) == 0:
+      return False
+    P = cons.Problem(lib, m, d)
+    Y = np.linalg.solve(np.linalg.cholesky(P.M), P.J.T)
+    return bool(1.0 + float(np.linalg.eigvalsh((Y * P.D) @ Y.T)[-1]) > limit)
+  finally:
+    m.opt.solver, m.opt.jacobian, m.opt.iterations, m.opt.noslip_iterations = keep
 
 
 def composition(lib, d):
